@@ -41,7 +41,8 @@ def plan(tier):
             ("dim1", 2, (2000 if tier == "quick" else 40000) // 2)]
 
 
-VIAS = ("ctor", "ctor", "ctor", "setbounds", "used-setbounds", "history", "aliased", "int-typed", "int-ctor-setbounds")
+VIAS = ("ctor", "ctor", "ctor", "setbounds", "used-setbounds", "history", "aliased", "int-typed", "int-ctor-setbounds",
+        "density-assigned")
 vias = st.sampled_from(VIAS)
 
 
@@ -112,6 +113,13 @@ def make(n, m, lo=None, hi=None, via="ctor"):
         return Evolvent(lo, hi, n, m)
     if via == "history":
         return HistoryEvolvent(Evolvent(lo, hi, n, m), lo, hi)
+    if via == "density-assigned":
+        # built with another density, the public attribute evolventDensity assigned afterwards (what a solver does
+        # that keeps its evolvent in step with its parameters object)
+        ev = Evolvent(lo, hi, n, 7 if m != 7 else 9)
+        ev.GetImage(0.3)
+        ev.evolventDensity = m
+        return ev
     if via == "int-ctor-setbounds":
         # built for an integer box written with Python ints (as the repository's tests do), then re-configured
         ev = Evolvent([-1] * n, [1] * n, n, m)
